@@ -256,14 +256,24 @@ def read_zip(src):
 
 
 def read_dir(path):
+    """files (and leaf directories, "/"-terminated) below path, in the operating system's enumeration order"""
     out = []
-    for root, dirs, files in os.walk(path):
-        dirs.sort(); rel = os.path.relpath(root, path)
-        for f in sorted(files):
-            p = f if rel == "." else posixpath.join(rel.replace(os.sep, "/"), f)
-            out.append((p, open(os.path.join(root, f), "rb").read()))
-        if not dirs and not files and rel != ".":
-            out.append((rel.replace(os.sep, "/") + "/", b""))
+
+    def rec(d, rel):
+        n = 0
+        for name in os.listdir(d):
+            n += 1
+            if name.startswith("."):
+                continue
+            full = os.path.join(d, name); r = name if not rel else rel + "/" + name
+            if os.path.isfile(full):
+                out.append((r, open(full, "rb").read()))
+            elif os.path.isdir(full):
+                before = len(out)
+                rec(full, r)
+                if len(out) == before:
+                    out.append((r + "/", b""))
+    rec(path, "")
     return out
 
 
@@ -322,7 +332,7 @@ def abs_container(c, it, fsreg):
             cur = int(os.stat(os.path.join(str(path), n)).st_mtime) if path is not None else -1
         except OSError:
             cur = -1
-        if t == cur:
+        if t == cur or path is None:      # without a path the time stamps are never consulted again
             tsl.append(it.name(n))
     pl = ";".join("(%s,%s)" % (z(it.name(n)), opt(bytes_term(n, b, it))) for n, b in parts.items())
     return "mkC [%s] %s (%s) %s" % (pl, zl(tsl), opt(str(pid) if pid is not None else None), pk), pid
@@ -800,3 +810,79 @@ def cleanup(work):
 
 def concrete_prefix(recs, upto):
     return [r["concrete"] for r in recs[:upto + 1]]
+
+
+def run_check(prop, checker, layers, make_histories, key_of, tier, seed, replay, trusted_base, rule, assumptions,
+              nontrivial_kinds, extra_targets=("PkgChk",), header_extra="Require Import PkgChk.\n", fidelity_code=9, shard=60,
+              post_hook=None):
+    """the common decision procedure of the package-level checks (BUILDERS.md contract)"""
+    import random
+    t0 = time.time(); rng = random.Random(seed)
+    proofs = common.build_proofs(prop, extra_targets=extra_targets)
+    corpus = []
+    for f in sorted((common.ROOT / "corpus" / prop).glob("*.json")):
+        corpus.append(json.load(open(f))["ops"])
+    if replay:
+        hs, flags = [json.load(open(replay))["ops"]], [True]
+    else:
+        gen = make_histories(tier, rng)
+        hs, flags = corpus + gen, [True] * len(corpus) + [False] * len(gen)
+    done, failed, work = drive_all(prop, hs, seed, flags)
+    cases, where, hist_ops = [], [], {}
+    for hid, recs in done:
+        for i, r in enumerate(recs):
+            cases.append(step_case(r)); where.append((hid, i))
+            hist_ops[r["kind"]] = hist_ops.get(r["kind"], 0) + 1
+    bad, errors = common.run_shards(PKG_HEADER + header_extra, cases, checker, prop.lower(), shard=shard)
+    recmap = dict(done)
+    violations, known_seen, seen_keys = [], [], set()
+    known = {e["key"]: e for e in common.known_findings(prop)}
+    hard = {i: c for i, c in bad.items() if c != fidelity_code}
+    fid = {}
+    for idx, c in bad.items():
+        if c == fidelity_code:
+            hid, i = where[idx]; k = recmap[hid][i]["concrete"]["op"]
+            fid[k] = fid.get(k, 0) + 1
+            if os.environ.get("VERIF_DEBUG"):
+                common.write_replay(prop, seed, "fid-%d-%d" % (hid, i), dict(layer="fidelity", key="fidelity", ops=concrete_prefix(recmap[hid], i)))
+    for idx in sorted(hard):
+        hid, i = where[idx]; rec = recmap[hid][i]
+        key = key_of(recmap[hid], i, hard[idx])
+        if key in seen_keys:
+            continue
+        seen_keys.add(key)
+        rp = common.write_replay(prop, seed, "%d-%d" % (hid, i), dict(
+            layer=layers.get(hard[idx], str(hard[idx])), key=key, ops=concrete_prefix(recmap[hid], i), step=i,
+            implementation_error=rec.get("err"), case=cases[idx][:6000]))
+        if key in known:
+            known_seen.append("%s (%s) replay=%s" % (key, known[key]["description"][:90], rp))
+        else:
+            violations.append((rp, False))
+    extra_cov = {}
+    if post_hook:
+        v2, k2, extra_cov = post_hook(done, recmap, seed, known)
+        violations += v2; known_seen += k2
+    harness_failures = [e for _, e in failed if e != "timeout"]
+    violations += common.proof_violation(prop, seed, proofs, errors + harness_failures[:3], bool(hard) or bool(violations))
+    nontriv = set()
+    for hid, recs in done:
+        for r in recs:
+            if r["kind"] in nontrivial_kinds and (r["pre"] != r["post"] or r["kind"] == "save"):
+                nontriv.add(common.digest((r["kind"], r["op"], r["pre"][:600])))
+    samples = [concrete_prefix(recs, len(recs) - 1) for _, recs in done[len(corpus):len(corpus) + 2]]
+    coverage = dict(
+        trusted_base=trusted_base, evaluations=len(cases), distinct_nontrivial=len(nontriv), rule=rule,
+        samples=samples, op_histogram=hist_ops, histories=len(done), histories_timed_out=sum(1 for _, e in failed if e == "timeout"),
+        harness_failures=len(harness_failures), corpus_cases=len(corpus),
+        fidelity_divergences=sum(1 for c in bad.values() if c == fidelity_code), fidelity_by_op=fid,
+        violation_keys=sorted(seen_keys), exhaustive=False)
+    coverage.update(extra_cov)
+    cleanup(work)
+    return common.finish(prop, tier, seed, proofs, coverage, violations, known_seen, t0, assumptions=assumptions)
+
+
+PKG_TRUSTED = [
+    "zipfile (infolist order, compress_type, member bytes), os.walk, lxml parse / C14N: the independent readers of what odfdo writes",
+    "modelled in Package.v: Container.__parts/__parts_ts/get_part/set_part/del_part/parts/clone/save/_save_zip/_save_folder/_xml_content, Document.__xmlparts/get_part/set_part/del_part/_add_binary_part/_check_manifest_rdf/save/clone, container_from_template, XmlPart lazy parse / serialize / pretty_serialize, Manifest.get/set_media_type/add_full_path/del_full_path",
+    "abstract in the model (taken from the run): hash names of add_file, media-type guessing, the '-template' string replacement, the effect of an edit on a tree, lxml parse/serialise (par (ser x) = x)",
+]
